@@ -528,8 +528,8 @@ func FuzzLegacy(f *testing.F) { addSeeds(f); f.Fuzz(fuzzTarget("legacy")) }
 // path) are reached by construction rather than by luck.
 func tableCases(pkg string) []Case {
 	ops := []string{`"add"`, `"remove"`, `"replace"`, `"move"`, `"copy"`, `"test"`, `"bogus"`}
-	paths := []string{"", `null`, `""`, `"/a"`, `"/a/b"`, `"/0"`, `"/-"`, `"/zz"`, `"/a/0"`, `"/-9223372036854775808"`, `"/a/-9223372036854775808/b"`}
-	froms := []string{"", `null`, `""`, `"/a"`, `"/0"`, `"/zz"`, `"/a/-9223372036854775808"`}
+	paths := []string{"", `null`, `""`, `"/a"`, `"/a/b"`, `"/0"`, `"/-"`, `"/zz"`, `"/a/0"`, `"/-9223372036854775808"`, `"/a/-9223372036854775808/b"`, `"/"`, `"/a/"`, `"//"`}
+	froms := []string{"", `null`, `""`, `"/a"`, `"/0"`, `"/zz"`, `"/a/-9223372036854775808"`, `"/"`}
 	values := []string{"", `null`, `1`, `"s"`, `{}`, `{"b":null}`, `[]`, `[null]`}
 	docs := []string{`{}`, `{"a":1}`, `{"a":{"b":1}}`, `{"a":null}`, `{"a":[1]}`, `[]`, `[1]`, `[null]`, `[[1]]`, `[{"b":1}]`, `null`, ``}
 	prefixes := []string{"",
